@@ -298,39 +298,50 @@ IsRat(q) == q \in Int \X (Nat \ {0}) /\ q = Norm(q[1], q[2])
 TypeOK == /\ hgt \in [Blk -> HDom]
           /\ \A l \in Leaf : H[l] \subseteq Nuc /\ \A n \in Nuc : IsRat(N[l][n]) /\ (n \notin H[l] => RIsZero(N[l][n]))
           /\ \A l \in Leaf, n \in Nuc : RLeq(RZero, N[l][n])
+\* Every clause is an operator of the two per-state tables (nd = homogenised densities, m = masses per nuclide) so that one
+\* evaluation of the tables serves all of them (Accounting); the named invariants below are the same clauses one by one.
 \* "its volume is the sum of its children's volumes (reduced by the symmetry factor where a block is cut)"
 \* (in every geometry reached by height changes; it holds because of ASSUME EqualAreas)
 VolumeAdditive == \A x \in Node \ Leaf :
     Vol[x] = QDiv(QSumSet(KidsTab[x], LAMBDA c : Vol[c]), RInt(IF IsBlk(x) THEN Sym[x] ELSE 1))
 \* "its mass (total, or of any nuclide or element selection) is the sum of its children's masses": for every selection
 \* the mass of the object is the sum over its children, over its leaves, and over the nuclides of the selection
-MassAdditive == LET m == MT(N) IN \A x \in Node \ Leaf : \A s \in DOMAIN Sel :
+MassAdditiveC(nd, m) == \A x \in Node \ Leaf : \A s \in DOMAIN Sel :
     LET ms == Mass(N, x, Sel[s])
     IN /\ ms = QSumSet(KidsTab[x], LAMBDA c : QSumSet(Sel[s], LAMBDA n : m[c][n]))
        /\ ms = QSumSet(Under[x], LAMBDA l : QSumSet(Sel[s], LAMBDA n : m[l][n]))
        /\ ms = QSumSet(Sel[s], LAMBDA n : m[x][n])
 \* "mass equals density times volume": the mass summed over the leaves equals the homogenised density of the object
 \* times the object's own volume, nuclide by nuclide, and in total with density() as the density
-MassIsDensityTimesVolume == LET nd == NDT(N)  m == MT(N) IN \A x \in Node :
+MassIsDensityTimesVolumeC(nd, m) == \A x \in Node :
     /\ \A n \in Nuc : m[x][n] = QMul(QMul(nd[x][n], RInt(W[n])), CutVol[x])
-    /\ Mass(N, x, Nuc) = QMul(DT_MassDensity(nd[x]), CutVol[x])
+    /\ QSumSet(Nuc, LAMBDA n : m[x][n]) = QMul(DT_MassDensity(nd[x]), CutVol[x])
 \* "its number density of each nuclide is the volume-weighted mean of its children's, so atoms counted as density times
 \* volume agree at component, block, assembly and core level"
-AtomsAgree == LET nd == NDT(N) IN \A x \in Node \ Leaf : \A n \in Nuc :
+AtomsAgreeC(nd, m) == \A x \in Node \ Leaf : \A n \in Nuc :
     QMul(nd[x][n], CutVol[x]) = QSumSet(KidsTab[x], LAMBDA c : QMul(nd[c][n], CutVol[c]))
 \* getMasses()[n] and getMass(n) are the same quantity, getNumberOfAtoms is density times the volume in the model
-MassesAgreeWithMass == LET nd == NDT(N)  m == MT(N) IN \A x \in Node \ Leaf : \A n \in Nuc :
+MassesAgreeWithMassC(nd, m) == \A x \in Node \ Leaf : \A n \in Nuc :
     DT_MassInGrams(n, EditVol[x], nd[x][n]) = m[x][n] /\ QMul(nd[x][n], EditVol[x]) = QMul(nd[x][n], CutVol[x])
 CutLeafMassesAgree == \A l \in Leaf : \A n \in Nuc :          \* fails for LeafVolCut = FALSE where Sym > 1 (see header)
     MassesAt(N, l)[n] = Mass(N, l, {n}) /\ Atoms(N, l, n) = QMul(N[l][n], CutVol[l])
 \* "Mass fractions always sum to one and the mass-fraction/number-density/mass conversions are mutual inverses"
-MassFracsSumToOne == LET nd == NDT(N) IN \A x \in Node :
+MassFracsSumToOneC(nd, m) == \A x \in Node :
     RIsZero(DT_MassDensity(nd[x])) \/ QSumSet(Nuc, LAMBDA n : DT_MassFractions(nd[x])[n]) = ROne
-ConversionsInverse == LET nd == NDT(N) IN \A x \in Node :
+ConversionsInverseC(nd, m) == \A x \in Node :
     LET v == nd[x]  rho == DT_MassDensity(v)  mf == TLCEval(DT_MassFractions(v))  back == TLCEval(DT_NDensFromMasses(rho, mf))
     IN /\ RIsZero(rho) \/ (back = v /\ DT_MassFractions(back) = mf /\ DT_MassDensity(back) = rho)
        /\ \A n \in Nuc : DT_NumberDensity(n, DT_MassInGrams(n, Vol[x], v[n]), Vol[x]) = v[n]
-       /\ \A n \in Nuc, m \in Masses : DT_MassInGrams(n, Vol[x], DT_NumberDensity(n, m, Vol[x])) = m
+       /\ \A n \in Nuc, mm \in Masses : DT_MassInGrams(n, Vol[x], DT_NumberDensity(n, mm, Vol[x])) = mm
+MassAdditive             == MassAdditiveC(NDT(N), MT(N))
+MassIsDensityTimesVolume == MassIsDensityTimesVolumeC(NDT(N), MT(N))
+AtomsAgree               == AtomsAgreeC(NDT(N), MT(N))
+MassesAgreeWithMass      == MassesAgreeWithMassC(NDT(N), MT(N))
+MassFracsSumToOne        == MassFracsSumToOneC(NDT(N), MT(N))
+ConversionsInverse       == ConversionsInverseC(NDT(N), MT(N))
+Accounting == LET nd == NDT(N)  m == MT(N)         \* all of the above with one evaluation of the tables (quick tier)
+              IN /\ VolumeAdditive /\ MassAdditiveC(nd, m) /\ MassIsDensityTimesVolumeC(nd, m) /\ AtomsAgreeC(nd, m)
+                 /\ MassesAgreeWithMassC(nd, m) /\ MassFracsSumToOneC(nd, m) /\ ConversionsInverseC(nd, m)
 
 (* ------------------------------- read-back clauses (properties of steps) -------------------------------- *)
 \* geometry is state: the queries in the post-state
